@@ -221,7 +221,7 @@ func init() {
 		Doc: "payload width agrees three ways and with the wire table: bytes appended after WriteHead(K) in each writer = bytes consumed in case K of each reader = bytes skipped in skipField's case K",
 		Run: rulePayloadWidths})
 
-	register(&Rule{ID: "C02.R3", Props: []string{"C02"}, Min: 14, Needs: NeedMain,
+	register(&Rule{ID: "C02.R3", Props: []string{"C02", "C03"}, Min: 14, Needs: NeedMain,
 		Doc: "narrowest width: the set of values reaching each narrower-writer call / each WriteHead(K) equals the table (interval analysis), narrowing conversions are to exactly the narrower type, unsigned writers widen by one zero-extending conversion, strings switch to STRING4 exactly above 255 bytes, the zero marker is used exactly for 0",
 		Run: ruleNarrowest})
 
